@@ -19,7 +19,7 @@ EXPLANATION = (
     'handler derives state from the rebound field; (d) FieldUpdate payload '
     'def-use; (e) completeness of the ancestor walk.  Exactly-once / ordering '
     'for arbitrary batches is not decided.')
-FLOORS = {'C09.a': 20, 'C09.b': 5, 'C09.c': 4, 'C09.d': 2, 'C09.e': 3}
+FLOORS = {'C09.a': 20, 'C09.b': 5, 'C09.c': 4, 'C09.d': 2, 'C09.e': 3, 'C09.f': 8}
 FILES = c08.FILES + ['pyglove/ext/evolution/recombinators.py',
                      'pyglove/ext/evolution/mutators.py',
                      'pyglove/core/geno/base.py', 'pyglove/core/geno/categorical.py']
@@ -379,6 +379,56 @@ def rule_e(ctx):
          '; '.join(problems))
 
 
+def rule_f(ctx):
+  """No notification is delivered inside a notifications-disabled scope."""
+  idx = ctx.index
+  n = 0
+  for f in idx.all_funcs():
+    if not f.module.name.startswith('pyglove.core.symbolic.'):
+      continue
+    g = None
+    for call in A.calls_in(f.node):
+      d = A.call_name(call) or ''
+      if d.split('.')[-1] != NOTIFY:
+        continue
+      n += 1
+      g = g or C.cfg_of(f.node)
+      node = [k for k in g.nodes if any(c is call for c in k.calls())]
+      # tests whose passing means "notifications are on"
+      blocked = set()
+      for t in g.nodes:
+        if t.kind != 'test':
+          continue
+        txt = A.unparse(t.ast, 200)
+        if 'is_change_notification_enabled' in txt:
+          for m, lab in t.succ:
+            if lab == 'true':
+              blocked.add((t.id, m.id, lab))
+        elif txt == 'skip_notification':
+          for m, lab in t.succ:
+            if lab == 'false':
+              blocked.add((t.id, m.id, lab))
+      seen, parent = g.reach(g.entry, blocked_edges=blocked, follow_exc=False)
+      bad = [k for k in node if k.id in seen]
+      problems = []
+      if bad:
+        problems.append('reachable without passing the notification-enabled test: '
+                        + str(g.witness_str(parent, bad[0])))
+      if any(A.unparse(t.ast) == 'skip_notification' for t in g.nodes if t.kind == 'test'):
+        # the default of skip_notification must come from the flag
+        ok = any(isinstance(x, ast.Assign) and A.assigned_names(x.targets[0]) == ['skip_notification']
+                 and A.unparse(x.value).replace(' ', '') == 'notflags.is_change_notification_enabled()'
+                 for x in ast.walk(f.node))
+        if not ok:
+          problems.append('skip_notification default no longer derives from the notification flag')
+      ctx.ob('C09.f', f'{f.fq}#notify@{A.unparse(call.args[0], 30) if call.args else ""}', not problems,
+             'a change event is dispatched only when notifications are enabled '
+             '(flags.is_change_notification_enabled() / skip_notification)',
+             f'{f.module.relpath}:{call.lineno}', '; '.join(problems))
+  if n < 8:
+    raise AnalysisError(f'C09.f found only {n} notification call sites')
+
+
 def run(ctx):
   ctx.consult(*FILES)
   rule_a(ctx)
@@ -386,4 +436,5 @@ def run(ctx):
   rule_c(ctx)
   rule_d(ctx)
   rule_e(ctx)
+  rule_f(ctx)
   ctx.assume('handlers of user classes outside the repository are out of scope')
